@@ -151,7 +151,7 @@ Print Assumptions C18_slice_refuted.
 
 (* ---- the unguarded statements are FALSE of the faithful model (and of the code) --------------------
    Concrete instance: values are tagged text, hash is the identity, str() / + / * / slice / [] are the
-   rows of w_strs / w_rows (what CPython answers).  Users x=1, y=2, l=[1,2,3,4], i=1 (i not yet run). *)
+   rows of w_strs / w_rows (what CPython answers).  Users x=1, y=2, l=[1,2,3,4], i=1 (i not yet run), z=(p=3, q=0) (not yet run). *)
 
 (* S17: x + 1 and x + '1' are different expressions, get ONE node, and the mix-up changes the value:
    python says x + '1' raises TypeError, the shared node answers 2.  Violates str_inj. *)
@@ -189,15 +189,16 @@ Proof. exact w_slice_default. Qed.
 Print Assumptions C18_slice_default_refuted.
 
 (* composite cache (S5, property C05) seen through injection: after one successful pull in a Workflow,
-   with no child added since, a second pull is a cache hit of the Workflow itself and runs NOTHING
-   upstream; +(-i), written before i had data, never gets its input although python gives -1
-   (known finding C18-parent-cache-skips-pull). *)
+   with no child added since and the same value-holding children in the data tree, a second pull is a
+   cache hit of the Workflow itself and runs NOTHING upstream; +(-z.p), written before z had run, never
+   gets its input although python gives -3 (known finding C18-parent-cache-skips-pull).
+   z is a two-output user node (p = 3, q = 0) that has not run. *)
 Theorem C18_pull_cache_refuted : exists st1 a o1 st2 b o2 st3 c o3 st4 v st5,
-  w_inject w_st0 (@mkQ tval CNegative w_i [] true) = (st1, a, o1) /\
+  w_inject w_st0 (@mkQ tval CNegative (CU 4 0) [] true) = (st1, a, o1) /\
   w_inject st1 (@mkQ tval CPositive (CN a) [] true) = (st2, b, o2) /\
-  w_inject st2 (@mkQ tval CNegative w_x [] true) = (st3, c, o3) /\
+  w_inject st2 (@mkQ tval CNegative (CU 4 1) [] true) = (st3, c, o3) /\
   w_pull st3 c = (st4, PVal v) /\ w_pull st4 b = (st5, PUp) /\
-  w_pyop PNeg ["int:1"] = inl "int:-1" /\ w_pyop PPos ["int:-1"] = inl "int:-1".
+  w_pyop PNeg ["int:3"] = inl "int:-3" /\ w_pyop PPos ["int:-3"] = inl "int:-3".
 Proof. exact w_pull_cache. Qed.
 Print Assumptions C18_pull_cache_refuted.
 
